@@ -302,18 +302,32 @@ func c13ranges(c *Ctx) {
 		lo, hi := false, false
 		var other []string
 		for _, g := range alt.Guards {
-			bo, ok := g.Cond.(*ssa.BinOp)
+			// the relation that holds, with the bound on the right ("Min <= p" reads "p >= Min")
+			rel, ok := an.RelOf(g)
 			if !ok {
 				continue
 			}
-			y := an.Path(bo.Y)
+			op, y := rel.Op, an.Path(rel.Y)
+			if xp := an.Path(rel.X); strings.Contains(xp, "Priority") && strings.Contains(xp, "Value") {
+				y = xp
+				switch op {
+				case token.LSS:
+					op = token.GTR
+				case token.LEQ:
+					op = token.GEQ
+				case token.GTR:
+					op = token.LSS
+				case token.GEQ:
+					op = token.LEQ
+				}
+			}
 			switch {
-			case bo.Op == token.GEQ && g.Truth && strings.HasSuffix(y, "Priority"+k+"ValueMin"):
+			case op == token.GEQ && strings.HasSuffix(y, "Priority"+k+"ValueMin"):
 				lo = true
-			case bo.Op == token.LEQ && g.Truth && strings.HasSuffix(y, "Priority"+k+"ValueMax"):
+			case op == token.LEQ && strings.HasSuffix(y, "Priority"+k+"ValueMax"):
 				hi = true
 			case g.Truth && strings.Contains(y, "Priority") && strings.Contains(y, "Value"):
-				other = append(other, bo.Op.String()+" "+y)
+				other = append(other, op.String()+" "+y)
 			}
 		}
 		r.Check(lo && hi && len(other) == 0, "PATH", fkey(fn)+"/range/"+name, c.InstrPos(ret), "guarded by its own Min and Max", sprintf("class %s is returned under: own lower bound=%v, own upper bound=%v, foreign bounds=%v - values outside the published %s range are classified as %s", name, lo, hi, other, k, name))
@@ -424,8 +438,13 @@ func c13mutate(c *Ctx) {
 			for _, cl := range an.Calls(fn, false) {
 				if an.ShortCallee(cl.Common()) == "MilliValue" {
 					for _, g := range an.Guards(cl) {
-						if g.Truth && strings.Contains(an.Path(g.Cond), `"cpu"`) {
-							milli = true
+						// "name == cpu" holds: written as == taken or as != not taken
+						if rel, isRel := an.RelOf(g); isRel && rel.Op == token.EQL {
+							sx, okx := constString(rel.X)
+							sy, oky := constString(rel.Y)
+							if (okx && sx == "cpu") || (oky && sy == "cpu") {
+								milli = true
+							}
 						}
 					}
 				}
